@@ -77,8 +77,12 @@ CLAIMED['C01'] = dict(
          'regenerated from the source every run, premise C01U_tables_ok by vm_compute). Loader level: '
          'C01_reload_keeps_only_identical (reload_server keeps the running Server object only for an identical '
          'declaration - exact capacity, label, traits, parent; model Master/SrvState.v same_decl, whose decision drives '
-         'the correspondence stage shared with C08) plus an oracle stage on the real Master (views, sums, and the '
-         'object\'s capacity against the server\'s declared record).',
+         'the correspondence stage shared with C08); C01_reload_server (third session, Sched/ReloadP.v: the reload of '
+         'a server that is not identical - Loader.remove_server, load_server, restore_placement of the placements '
+         'recorded under it - is a run of the operations ORemoveServer, OAddServer, ORestore whose side conditions '
+         'follow from the call site, so the accounting invariant and every other invariant of a reachable state hold '
+         'afterwards whatever the new capacity is and whichever recorded instances still fit) plus an oracle stage on '
+         'the real Master (views, sums, and the object\'s capacity against the server\'s declared record).',
     note=SCHED_NOTE + ' Hypotheses of C01_invariant (wf_ops): a new server has a fresh name, non-negative capacity of '
          'the cell\'s dimension and is not named by a stale instance; a new instance is unplaced with a non-negative '
          'demand of that dimension.',
@@ -193,10 +197,18 @@ CLAIMED['C05'] = dict(
          'held by nobody), C05_held_nonneg, C05_cycle_spec. The proof covers every path of the placement loop (skips, '
          'over-cap removal, renewal and its restore, eviction and its restore, infeasible shapes, schedule-once) and '
          'the four phases before it; proving it for renewals exposed the defect repaired by fix: 7bb39c9; earlier '
-         'repairs 05b28ff, 892e28c, d5e1071 (known_findings.json).'),
+         'repairs 05b28ff, 892e28c, d5e1071 (known_findings.json). Loader side (third session): the operation '
+         'ORestore models Loader.restore_placement for one recorded instance (Server.restore or Server.put, then '
+         'Application.force_set_identity; a schedule-once instance that cannot be put back is removed) and is part of '
+         'the alphabet of `reachable`, so every theorem above covers states reached through the loader; '
+         'C05_loader_restore (all invariants kept when the recorded identity is held by no other instance of the '
+         'group and a group instance has or is given one), C05_forced_duplicate_refuted (the proviso is needed). The '
+         'E-cell generator plays the operation (reload scenario and restart-style restores) against the real '
+         'Server.restore / Server.put / force_set_identity.'),
     note=SCHED_NOTE + ' Hypotheses of the all-histories theorems (wf_ops_all): a new server or instance has a fresh name and vectors of '
          'the cell dimension, a new instance record is not placed and holds no identity, configured counts are '
-         'non-negative.',
+         'non-negative; a restore names an attached server and an instance that is on no server, a recorded identity '
+         'is held by no other instance of the group.',
     technique=('Rocq proof (per-turn specification of the placement loop, loop invariant, partition composition, '
               'allocation-tree and identity invariants over all histories, quantified over identity choices) + '
               'per-operation digest correspondence (cases.v/vm_compute) + oracle'),
@@ -251,7 +263,12 @@ CLAIMED['C11'] = dict(
          'C11_reload_accounting (after the whole load every server\'s free vector and affinity counters match what it '
          'lists), C11_remove_all_idle. The master-level model now performs the second put of a doubly recorded '
          'instance as Python does (the scheduler model\'s put_guard refuses an already placed instance; '
-         'restore_placements is the one call site where that matters). Left to the oracle on the real load_model(): '
+         'restore_placements is the one call site where that matters). Bridge to the scheduler\'s operation '
+         'alphabet (third session, Master/RestoreBridge.v): for a store recording no instance under two servers the '
+         'first loop of restore_placements IS a run of ORestore operations, one per placement node '
+         '(C11_restore_is_a_run), so the rebuilt cell is a reachable state of the scheduler model when the cell before '
+         'the restore is (C11_rebuilt_cell_reachable) and the end-of-cycle theorems apply to the first cycle after a '
+         'fail-over (C11_first_cycle_after_failover). Left to the oracle on the real load_model(): '
          'load_servers / load_apps / load_identity_groups before the restore.',
     note=MASTER_NOTE + ' Server.restore/put answers are taken from the implementation in the correspondence and from '
          'Sched/Tree.v in RestoreSchedP.v; the oracle skips over-committed servers and doubly recorded instances.',
